@@ -490,6 +490,11 @@ pub struct RegenCase {
     pub place: Vec<(u16, Vec<(u16, u64)>, u8)>,
     /// DefaultValue patches: (class selector, slot selector, value seed)
     pub default_patches: Vec<(u16, u16, u64)>,
+    /// the alias / serializes-as links of the generated database are not in the dump but come from
+    /// patch entries (as in patches/*.yml); `Some(k)`: the k-th alias member is missing from the dump
+    /// (a stale patch entry) - the pipeline may refuse, but must not emit an incoherent database
+    #[serde(default)]
+    pub links_from_patches: Option<Option<u16>>,
 }
 
 fn xml_value(name: &str, v: &GVal) -> String {
@@ -526,6 +531,40 @@ fn regen_body(c: &RegenCase, ctx: &mut CaseCtx) -> PropResult {
     for cl in db.classes.values_mut() {
         cl.default_properties.clear(); // a dump carries no defaults
     }
+    // alias / serializes-as links as patch entries over a dump of plain members
+    let mut link_yaml: std::collections::BTreeMap<String, Vec<String>> = Default::default();
+    let mut stale = false;
+    if let Some(drop_sel) = &c.links_from_patches {
+        let mut alias_members: Vec<(String, String)> = Vec::new();
+        let mut class_names: Vec<String> = db.classes.keys().map(|k| k.to_string()).collect();
+        class_names.sort();
+        for cn in &class_names {
+            let cl = db.classes.get_mut(cn.as_str()).unwrap();
+            let mut pnames: Vec<String> = cl.properties.keys().map(|k| k.to_string()).collect();
+            pnames.sort();
+            for pn in pnames {
+                let kind = cl.properties[pn.as_str()].kind.clone();
+                match kind {
+                    PropertyKind::Alias { alias_for } => {
+                        link_yaml.entry(cn.clone()).or_default().push(format!("    {pn}:\n      AliasFor: {alias_for}\n"));
+                        alias_members.push((cn.clone(), pn.clone()));
+                    }
+                    PropertyKind::Canonical { serialization: PropertySerialization::SerializesAs(a) } => {
+                        link_yaml.entry(cn.clone()).or_default().push(format!("    {pn}:\n      Serialization:\n        Type: SerializesAs\n        As: {a}\n"));
+                    }
+                    _ => {}
+                }
+                cl.properties.get_mut(pn.as_str()).unwrap().kind = PropertyKind::Canonical { serialization: PropertySerialization::Serializes };
+            }
+        }
+        if let (Some(k), false) = (drop_sel, alias_members.is_empty()) {
+            let (cn, pn) = &alias_members[(*k as usize * alias_members.len()) >> 16];
+            db.classes.get_mut(cn.as_str()).unwrap().properties.remove(pn.as_str());
+            stale = true;
+        }
+        ctx.label_if(!alias_members.is_empty(), "links_come_from_patches");
+        ctx.label_if(stale, "stale_patch_entry");
+    }
     // which class declares a slot, and how the file spells it
     let declared_in = |class: usize, slot: u8| -> Option<usize> { b.chains[class].iter().copied().find(|k| db.classes[format!("K{k}").as_str()].properties.contains_key(slot_name(slot).as_str())) };
     let file_name = |class: usize, slot: u8| -> String {
@@ -553,13 +592,31 @@ fn regen_body(c: &RegenCase, ctx: &mut CaseCtx) -> PropResult {
         by_class.entry(decl).or_default().push((slot, v.clone()));
         patch_defaults.push((decl, slot, v));
     }
-    for (class, items) in &by_class {
-        yaml.push_str(&format!("  K{class}:\n"));
-        for (slot, v) in items {
-            yaml.push_str(&format!("    {}:\n      DefaultValue:\n        {}\n", slot_name(*slot), yaml_value(v)));
+    // one mapping per class: link entries and DefaultValue entries of the same property are merged
+    let mut per_class: std::collections::BTreeMap<String, std::collections::BTreeMap<String, String>> = Default::default();
+    for (cn, entries) in &link_yaml {
+        for e in entries {
+            let (head, rest) = e.split_once('\n').unwrap();
+            per_class.entry(cn.clone()).or_default().entry(head.to_string()).or_default().push_str(&format!("{rest}"));
         }
     }
-    if by_class.is_empty() {
+    for (class, items) in &by_class {
+        for (slot, v) in items {
+            per_class
+                .entry(format!("K{class}"))
+                .or_default()
+                .entry(format!("    {}:", slot_name(*slot)))
+                .or_default()
+                .push_str(&format!("      DefaultValue:\n        {}\n", yaml_value(v)));
+        }
+    }
+    for (cn, props) in &per_class {
+        yaml.push_str(&format!("  {cn}:\n"));
+        for (head, body) in props {
+            yaml.push_str(&format!("{head}\n{body}"));
+        }
+    }
+    if per_class.is_empty() {
         yaml = "Change: {}\n".into();
     }
     // defaults place
@@ -611,7 +668,15 @@ fn regen_body(c: &RegenCase, ctx: &mut CaseCtx) -> PropResult {
         Ok(())
     });
     let _ = std::fs::remove_dir_all(&dir);
-    run?.map_err(|e| Fail::new("db:regen:pipeline-error", format!("the pipeline rejects a coherent dump with valid patches and a valid defaults place: {e}")))?;
+    match run? {
+        Ok(()) => {}
+        // a patch entry for a member the dump no longer has: refusing is a correct answer
+        Err(_) if stale => {
+            ctx.label("stale_patch_refused");
+            return Ok(());
+        }
+        Err(e) => return Err(Fail::new("db:regen:pipeline-error", format!("the pipeline rejects a coherent dump with valid patches and a valid defaults place: {e}"))),
+    }
 
     // (1) what comes out is a coherent database
     let problems = coherence(&db);
@@ -653,8 +718,9 @@ fn regen_strategy() -> BoxedStrategy<RegenCase> {
         gen_db_strategy(),
         proptest::collection::vec((any::<u16>(), proptest::collection::vec((any::<u16>(), 1u64..1000), 0..4), prop_oneof![2 => Just(0u8), 1 => 1u8..3]), 0..6),
         proptest::collection::vec((any::<u16>(), any::<u16>(), 1u64..1000), 0..4),
+        prop_oneof![2 => Just(None), 2 => Just(Some(None)), 2 => any::<u16>().prop_map(|k| Some(Some(k)))],
     )
-        .prop_map(|(db, place, default_patches)| RegenCase { db, place, default_patches })
+        .prop_map(|(db, place, default_patches, links)| RegenCase { db, place, default_patches, links_from_patches: links })
         .boxed()
 }
 
@@ -1197,6 +1263,8 @@ pub fn run(ctx: &Ctx) -> PropertyReport {
         let mut r = ctx.run_prop("regeneration", cases, regen_strategy, regen_body);
         r.floor("place_has_properties_the_database_does_not_know", cases / 10);
         r.floor("default_value_patch", cases / 10);
+        r.floor("links_come_from_patches", cases / 10);
+        r.floor("stale_patch_entry", cases / 20);
         rep.push(r);
     }
     if sub.runs("reserialize") {
